@@ -630,21 +630,26 @@ func builtinMacroExpand(env *LEnv, args *LVal) *LVal {
 		return env.Errorf("first argument is not a list: %v", form.Type)
 	}
 	maxDepth := env.Runtime.MaxMacroExpansions()
-	for depth := 0; ; depth++ {
-		if depth > maxDepth {
-			return env.Errorf("macro expansion depth exceeded (%d expansions)", depth)
-		}
+	for depth := 0; ; {
 		if form.IsNil() {
 			return form
 		}
 		macsym := form.Cells[0]
-		if macsym.Type != LSymbol {
+		if macsym.Type != LSymbol || macsym.quoted {
+			// A quoted head is a symbol as data: eval does not call it,
+			// so it is not a macro call to expand either.
 			return form
 		}
 		mac := env.Get(macsym)
 		r, ok := macroExpand1(env, mac, macroArgList(form))
 		if !ok {
 			return form
+		}
+		// Counted the way eval counts: an expansion has just been made,
+		// and the one that takes the total past the limit is refused.
+		depth++
+		if depth > maxDepth {
+			return env.Errorf("macro expansion depth exceeded (%d expansions)", depth)
 		}
 		if r.Type != LSExpr {
 			return r
@@ -662,7 +667,7 @@ func builtinMacroExpand1(env *LEnv, args *LVal) *LVal {
 		return form
 	}
 	macsym := form.Cells[0]
-	if macsym.Type != LSymbol {
+	if macsym.Type != LSymbol || macsym.quoted {
 		return form
 	}
 	mac := env.Get(macsym)
